@@ -34,7 +34,6 @@ type mixGen struct {
 	drained      bool
 	blocked      map[string]bool // pair -> its destination currently black-lists its source (as far as the generator knows)
 	ethFunded    bool
-	ethCtr       int64
 	ethContracts []*types.Address
 	poorFunded   bool
 	forceReq     bool // the next block starts with a valid request on a usable pair
@@ -56,8 +55,8 @@ func (g *mixGen) ethTx() pb.Transaction {
 	sender := []string{"eth-0", "eth-1"}[r.Intn(2)]
 	// every transaction gets a gas price of its own: nonces recur after replays and gaps, and the identical
 	// transaction in two blocks is something ordering rules out (the by-hash indexes hold one position per hash)
-	g.ethCtr++
-	price := big.NewInt(1000 + g.ethCtr)
+	g.w.EthCtr++
+	price := big.NewInt(1000 + g.w.EthCtr)
 	other := harness.EthAddr(harness.EthKey("eth-receiver"))
 	// init code: stores a word at slot 0xff (a binary storage key), then returns the 10-byte runtime
 	// (PUSH1 0x2a; MSTORE; RETURN 32 bytes)
@@ -79,12 +78,12 @@ func (g *mixGen) ethTx() pb.Transaction {
 		g.note("eth-nonce-replayed")
 		// a different transaction with an already used nonce (the identical transaction in two blocks is
 		// something ordering rules out, C20; the by-hash indexes can only hold one position per hash)
-		g.ethCtr++
-		return w.Eth(sender, -1, 21000, price, big.NewInt(1000000+g.ethCtr), other, nil)
+		g.w.EthCtr++
+		return w.Eth(sender, -1, 21000, price, big.NewInt(1000000+g.w.EthCtr), other, nil)
 	case x < 68:
 		g.note("eth-nonce-gap")
-		g.ethCtr++
-		return w.Eth(sender, 1, 21000, price, big.NewInt(1000000+g.ethCtr), other, nil)
+		g.w.EthCtr++
+		return w.Eth(sender, 1, 21000, price, big.NewInt(1000000+g.w.EthCtr), other, nil)
 	case x < 80:
 		g.note("eth-deploy")
 		return w.Eth(sender, 0, 200000, price, big.NewInt(0), nil, deploy)
